@@ -5,155 +5,11 @@
 -/
 import FlacModel.Props.C01c
 import FlacModel.Props.C11
+import FlacModel.Proofs.FileHead
 import FlacModel.Props.C07b
 
 namespace Flac.C01
 open Flac Gen
-
-theorem block_type_lt (b : Block) : b.type < 128 := by cases b <;> simp [Block.type]
-
-/-- one written block, as the file reader's block walker sees it -/
-theorem raw_block (last : Bool) (b : Block) (x bs : List Nat) (hb : b.body = .ok bs) (hx : writeBlock last b = .ok x)
-    (r : List Nat) : ∃ rest, x ++ r = ((if last then 128 else 0) + b.type) :: (beBytes 3 bs.length ++ (bs ++ r)) ∧ bs.length < 256 ^ 3
-      ∧ x.length = 4 + bs.length ∧ rest = bs ++ r := by
-  unfold writeBlock at hx
-  rw [hb] at hx; dsimp only at hx
-  by_cases hl : bs.length > maxBlockSize
-  · rw [if_pos hl] at hx; cases hx
-  · rw [if_neg hl] at hx
-    have hx := (Except.ok.inj hx).symm
-    have hm : maxBlockSize = 2 ^ 24 - 1 := rfl
-    refine ⟨bs ++ r, by rw [hx]; simp, by omega, by rw [hx]; simp [beBytes_length]; omega, rfl⟩
-
-theorem beBytes3 (n : Nat) : ∃ a b c, beBytes 3 n = [a, b, c] := by
-  simp [beBytes]
-
-/-- the raw view of a block -/
-def rawOf (last : Bool) (b : Block) (bs : List Nat) : RawBlock := { last := last, type := b.type, body := bs }
-
-theorem readRaw_one (fuel : Nat) (last : Bool) (b : Block) (x bs : List Nat) (hb : b.body = .ok bs) (hx : writeBlock last b = .ok x)
-    (r : List Nat) (used : Nat) :
-    readRawBlocks (fuel + 1) (x ++ r) used =
-      if last then .ok ([rawOf true b bs], used + x.length)
-      else match readRawBlocks fuel r (used + x.length) with
-        | .error e => .error e
-        | .ok (bl, u) => .ok (rawOf false b bs :: bl, u) := by
-  obtain ⟨_, e, hlt, hlen, _⟩ := raw_block last b x bs hb hx r
-  obtain ⟨a1, a2, a3, e3⟩ := beBytes3 bs.length
-  have hn : beNat [a1, a2, a3] = bs.length := by rw [← e3]; exact beNat_beBytes 3 _ hlt
-  rw [e, e3]
-  have ht := block_type_lt b
-  simp only [List.cons_append, List.nil_append, readRawBlocks, hn]
-  have h1 : ¬ (bs ++ r).length < bs.length := by simp
-  have h2 : (bs ++ r).take bs.length = bs := by simp
-  have h3 : (bs ++ r).drop bs.length = r := by simp
-  simp only [h1, if_false, h2, h3]
-  have hu : used + 4 + bs.length = used + x.length := by omega
-  cases last with
-  | true =>
-    have d1 : ((128 + b.type) / 128 == 1) = true := by simp; omega
-    have d2 : (128 + b.type) % 128 = b.type := by omega
-    simp only [if_true, d1, d2, hu, rawOf]
-  | false =>
-    have d1 : ((0 + b.type) / 128 == 1) = false := by simp; omega
-    have d2 : (0 + b.type) % 128 = b.type := by omega
-    simp only [Bool.false_eq_true, if_false, d1, d2, hu, rawOf]
-    cases readRawBlocks fuel r (used + x.length) <;> rfl
-
-/-- the blocks after STREAMINFO, as raw blocks -/
-theorem readRaw_rest (bs : List Block) (hne : bs ≠ []) (s : Seen) (y : List Nat) (h : writeRest s bs = .ok y)
-    (tail : List Nat) (fuel : Nat) (hf : bs.length ≤ fuel) (used : Nat) :
-    ∃ raws, readRawBlocks fuel (y ++ tail) used = .ok (raws, used + y.length) := by
-  induction bs generalizing s y fuel used with
-  | nil => exact absurd rfl hne
-  | cons b r ih =>
-    cases fuel with
-    | zero => simp at hf
-    | succ fuel =>
-      simp only [writeRest] at h
-      cases hc : checkUnique s b with
-      | error e => rw [hc] at h; cases h
-      | ok s' =>
-        rw [hc] at h; dsimp only at h
-        cases hx : writeBlock r.isEmpty b with
-        | error e => rw [hx] at h; cases h
-        | ok x =>
-          rw [hx] at h; dsimp only at h
-          cases hy : writeRest s' r with
-          | error e => rw [hy] at h; cases h
-          | ok y' =>
-            rw [hy] at h
-            have h := (Except.ok.inj h).symm
-            subst h
-            have hb : ∃ bsb, b.body = .ok bsb := by
-              unfold writeBlock at hx
-              cases hbb : b.body with
-              | error e => rw [hbb] at hx; cases hx
-              | ok v => exact ⟨v, rfl⟩
-            obtain ⟨bsb, hbb⟩ := hb
-            rw [List.append_assoc, readRaw_one fuel r.isEmpty b x bsb hbb hx (y' ++ tail) used]
-            cases r with
-            | nil =>
-              simp only [writeRest] at hy
-              have hy := (Except.ok.inj hy).symm
-              subst hy
-              exact ⟨[rawOf true b bsb], by simp⟩
-            | cons b2 r2 =>
-              simp only [List.isEmpty_cons, Bool.false_eq_true, if_false]
-              obtain ⟨raws, hr⟩ := ih (by simp) s' y' hy fuel (by simp at hf ⊢; omega) (used + x.length)
-              rw [hr]
-              refine ⟨rawOf false b bsb :: raws, ?_⟩
-              simp [Nat.add_assoc]
-
-/-- **The metadata section round-trips into the file reader**: what `write_blocks` emits for a list headed by a
-    well-formed STREAMINFO is read back by the file readers as that STREAMINFO, with the audio starting right behind it. -/
-theorem file_head_roundtrip (si : Streaminfo) (rest : List Block) (hw : C11.streaminfoWf si = true) (out : List Nat)
-    (h : writeBlocks (.streaminfo si :: rest) = .ok out) (tail : List Nat) :
-    ∃ hd, parseFileHead (out ++ tail) = .ok hd ∧ hd.si = si ∧ hd.framesStart = out.length := by
-  unfold writeBlocks at h
-  dsimp only at h
-  cases hx : writeBlock rest.isEmpty (.streaminfo si) with
-  | error e => rw [hx] at h; cases h
-  | ok x =>
-    rw [hx] at h; dsimp only at h
-    cases hy : writeRest {} rest with
-    | error e => rw [hy] at h; cases h
-    | ok y =>
-      rw [hy] at h
-      have h := (Except.ok.inj h).symm
-      subst h
-      have hb : ∃ bsb, (Block.streaminfo si).body = .ok bsb := by
-        unfold writeBlock at hx
-        cases hbb : (Block.streaminfo si).body with
-        | error e => rw [hbb] at hx; cases hx
-        | ok v => exact ⟨v, rfl⟩
-      obtain ⟨bsb, hbb⟩ := hb
-      have hps := C11.streaminfo_roundtrip si hw bsb hbb
-      unfold parseFileHead
-      have e : [0x66, 0x4C, 0x61, 0x43] ++ x ++ y ++ tail = [0x66, 0x4C, 0x61, 0x43] ++ (x ++ (y ++ tail)) := by simp
-      rw [e]
-      have t1 : (([0x66, 0x4C, 0x61, 0x43] ++ (x ++ (y ++ tail))).take 4 != [0x66, 0x4C, 0x61, 0x43]) = false := by simp
-      have t2 : ([0x66, 0x4C, 0x61, 0x43] ++ (x ++ (y ++ tail))).drop 4 = x ++ (y ++ tail) := by simp
-      simp only [t1, Bool.false_eq_true, if_false, t2]
-      have hfuel : ([0x66, 0x4C, 0x61, 0x43] ++ (x ++ (y ++ tail))).length + 1 = (x ++ (y ++ tail)).length + 4 + 1 := by
-        simp
-      rw [hfuel, readRaw_one _ rest.isEmpty (.streaminfo si) x bsb hbb hx (y ++ tail) 4]
-      cases rest with
-      | nil =>
-        simp only [writeRest] at hy
-        have hy := (Except.ok.inj hy).symm
-        subst hy
-        simp only [List.isEmpty_nil, if_true, rawOf, Block.type, bne_self_eq_false, Bool.false_eq_true, if_false, hps]
-        exact ⟨_, rfl, rfl, by simp; omega⟩
-      | cons b2 r2 =>
-        simp only [List.isEmpty_cons, Bool.false_eq_true, if_false]
-        have hlen := C11.writeRest_length _ _ _ hy
-        obtain ⟨raws, hr⟩ := readRaw_rest (b2 :: r2) (by simp) ({} : Seen) y hy tail ((x ++ (y ++ tail)).length + 4)
-          (by simp at hlen ⊢; omega) (4 + x.length)
-        rw [hr]
-        simp only [rawOf, Block.type, bne_self_eq_false, Bool.false_eq_true, if_false, hps]
-        exact ⟨_, rfl, rfl, by simp; omega⟩
-
 
 theorem serialize_length_pos (f : Frame) : 1 ≤ f.serialize.length := by
   simp only [Frame.serialize, Frame.serializeWith, List.length_append, List.length_cons, List.length_nil]
